@@ -17,6 +17,31 @@ def gen_consts(v):
 SPEC_KEYS = ['d'] + ['r%d' % i for i in range(MAX_OPS)] + ['d%d' % i for i in range(MAX_OPS)]
 INTERNAL_KEYS = []
 
+# The internal observables are read from private members.  They are only compiled in (and only
+# compared) when the member still exists under its name; its container type does not matter
+# (the harness iterates it generically).  An internal refactoring must not break the check.
+def _probe():
+    import os, re
+    repo = os.environ.get('VERIF_REPO', '/repo')
+    def text(rel):
+        for root in (repo, '/repo'):
+            p = os.path.join(root, rel)
+            if os.path.exists(p):
+                return open(p, errors='replace').read()
+        return ''
+    flags, ignore = [], []
+    if re.search(r'\bm_deletion_candidates\s*;', text('olad/plugin_api/UniverseStore.h')):
+        flags.append('-DC03_HAVE_CANDS')
+    else:
+        ignore += ['c%d' % i for i in range(MAX_OPS)]
+    if re.search(r'\bm_ports\s*;', text('include/olad/PortBroker.h')):
+        flags.append('-DC03_HAVE_BROKER_PORTS')
+    else:
+        ignore += ['b%d' % i for i in range(MAX_OPS)]
+    return flags, ignore
+
+CXXFLAGS, INTERNAL_KEYS = _probe()
+
 RULE = ('histories of patch/unpatch/set-priority/GC/client add+remove/port data/device stop/DeviceManager register+'
         'unregister+unregister-all/RegisterForDmx register+unregister over 1-3 devices (all four AllowLooping x '
         'AllowMultiPortPatching policies, ports without device), 2-7 ports with number-based veto sets and '
@@ -118,7 +143,7 @@ def rand_op(rng, devs, ports, pool):
 
 def directed(rng, devs, ports, pool):
     """prefixes aimed at the branches of GenericPatchPort"""
-    kind = rng.randrange(12)
+    kind = rng.randrange(15)
     np_ = len(ports)
     ops = []
     if kind == 0:
@@ -203,6 +228,26 @@ def directed(rng, devs, ports, pool):
         a, b = rng.sample(pool, 2)
         ops = ['P.%d.%d' % (k, a), 'P.%d.%d' % (p, a), 'P.%d.%d' % (p, b), 'P.%d.%d' % (p, a), 'G',
                'U.%d' % k, 'P.%d.%d' % (p, a), 'G']
+    elif kind == 12:
+        # a universe goes idle twice between two collections: patch, unpatch, patch, unpatch, GC
+        p = rng.randrange(np_)
+        a = rng.choice(pool)
+        ports[p][3] = [x for x in ports[p][3] if x != a]; ports[p][4] = '-'
+        ops = ['P.%d.%d' % (p, a), 'U.%d' % p, 'P.%d.%d' % (p, a), 'U.%d' % p, 'G', 'G']
+    elif kind == 13:
+        # two vetoed patches to the same unused universe, then GC
+        p = rng.randrange(np_)
+        q = rng.randrange(np_)
+        a = rng.choice(pool)
+        ports[p][3] = sorted(set(ports[p][3]) | {a}); ports[q][3] = sorted(set(ports[q][3]) | {a})
+        ops = ['P.%d.%d' % (p, a), 'P.%d.%d' % (q, a), 'G', 'P.%d.%d' % (p, a), 'G']
+    elif kind == 14:
+        # remove the last client, re-add it, remove it again, GC
+        a = rng.choice(pool)
+        k1, k2 = rng.choice([('KA', 'KR'), ('RA', 'RU'), ('RA', 'KR')])
+        ops = ['%s.%d.1' % (k1, a), '%s.%d.1' % (k2, a), '%s.%d.1' % (k1, a), '%s.%d.1' % (k2, a), 'G', 'G']
+        if rng.random() < 0.4:
+            ops = ['KA.%d.2' % a, 'SA.%d.1' % a, 'KR.%d.2' % a, 'SR.%d.1' % a, 'SA.%d.1' % a] + ops[1:]
     elif kind == 11:
         # RegisterForDmx(UNREGISTER) for a universe that does not exist must not leave one behind
         a = rng.choice(pool)
